@@ -249,8 +249,9 @@ Theorem countersig_binds st data t :
   covers H st data = true /\ st_sig_ok st = true /\ t = st_time st.
 Proof.
   unfold verify_stamp, covers, imprint_verify, signer_count_bad, imprint_verify_bad, ms_content_bad.
-  destruct (st_form st =? 0).
-  - destruct (negb (st_nsigners st =? 1)); [discriminate|].
+  destruct (st_form st =? 0) eqn:F0.
+  - assert (F1 : (st_form st =? 1) = false) by lia. rewrite F1.
+    destruct (negb (st_nsigners st =? 1)); [discriminate|].
     destruct (st_has_content st); cbn [negb]; [|discriminate].
     destruct (st_info_ok st); cbn [negb]; [|discriminate].
     destruct (known_alg (st_alg st)); cbn [negb bind]; [|discriminate].
@@ -288,8 +289,9 @@ Lemma verify_stamp_ok_iff st data :
   is_ok (verify_stamp H st data) = stamp_valid H st data.
 Proof.
   unfold verify_stamp, stamp_valid, covers, imprint_verify, signer_count_bad, imprint_verify_bad, ms_content_bad.
-  destruct (st_form st =? 0).
-  - destruct (st_nsigners st =? 1); cbn [negb]; [|cbn; btauto].
+  destruct (st_form st =? 0) eqn:F0.
+  - assert (F1 : (st_form st =? 1) = false) by lia. rewrite F1.
+    destruct (st_nsigners st =? 1); cbn [negb]; [|cbn; btauto].
     destruct (st_has_content st); cbn [negb]; [|cbn; btauto].
     destruct (st_info_ok st); cbn [negb]; [|cbn; btauto].
     destruct (known_alg (st_alg st)); cbn [negb bind]; [|cbn; btauto].
@@ -361,7 +363,7 @@ Proof.
     rewrite (eff_time_nz _ now Hnz) in Hacc.
     assert (Hv : stamp_valid H st (s_value s) = true) by (rewrite <- verify_stamp_ok_iff, V; reflexivity).
     rewrite (chain_ok_window (s_leaf s)) in Hacc.
-    repeat split; auto.
+    split; [reflexivity|]. split; [exact Hv|]. split; [exact Hnz|]. split; [|split].
     + destruct (in_window (s_leaf s) (st_time st)); [reflexivity|]. rewrite !andb_false_r in Hacc. discriminate.
     + destruct (chain_ok (st_cert st) (st_time st)); [reflexivity|]. discriminate.
     + destruct (c_ts_eku (st_cert st)); [reflexivity|]. rewrite andb_false_r in Hacc. discriminate.
